@@ -1,0 +1,164 @@
+// Verification hooks (compiled only with `--cfg slawlor_ractor_verif`).
+//
+// Drives the real `RemoteActor::handle_serialized` on a real `RemoteActorState` without a
+// network: the owning session is replaced by a recording actor. No logic lives here.
+
+//! Verification hooks for the remote actor proxy (only with `--cfg slawlor_ractor_verif`).
+
+use std::sync::{Arc, Mutex};
+
+use ractor::message::SerializedMessage;
+use ractor::{Actor, ActorProcessingErr, ActorRef};
+
+use super::{RemoteActor, RemoteActorMessage, RemoteActorState};
+use crate::node::NodeSessionMessage;
+use crate::protocol::node::node_message::Msg;
+
+/// A node message the proxy handed to its session, in plain form
+#[derive(Debug, Clone, PartialEq, Eq)]
+pub enum VerifSent {
+    /// `node.proto` Cast
+    Cast {
+        /// target pid on the peer
+        to: u64,
+        /// variant name
+        variant: String,
+        /// argument bytes
+        what: Vec<u8>,
+    },
+    /// `node.proto` Call
+    Call {
+        /// target pid on the peer
+        to: u64,
+        /// request tag
+        tag: u64,
+        /// variant name
+        variant: String,
+        /// argument bytes
+        what: Vec<u8>,
+        /// timeout forwarded to the peer
+        timeout_ms: Option<u64>,
+    },
+    /// anything else
+    Other,
+}
+
+struct RecordingSession {
+    log: Arc<Mutex<Vec<VerifSent>>>,
+}
+
+#[cfg_attr(feature = "async-trait", ractor::async_trait)]
+impl Actor for RecordingSession {
+    type Msg = NodeSessionMessage;
+    type State = ();
+    type Arguments = ();
+    async fn pre_start(
+        &self,
+        _: ActorRef<Self::Msg>,
+        _: Self::Arguments,
+    ) -> Result<Self::State, ActorProcessingErr> {
+        Ok(())
+    }
+
+    async fn handle(
+        &self,
+        _: ActorRef<Self::Msg>,
+        message: Self::Msg,
+        _: &mut Self::State,
+    ) -> Result<(), ActorProcessingErr> {
+        match message {
+            NodeSessionMessage::SendMessage(m) => {
+                let rec = match m.msg {
+                    Some(Msg::Cast(c)) => VerifSent::Cast {
+                        to: c.to,
+                        variant: c.variant,
+                        what: c.what,
+                    },
+                    Some(Msg::Call(c)) => VerifSent::Call {
+                        to: c.to,
+                        tag: c.tag,
+                        variant: c.variant,
+                        what: c.what,
+                        timeout_ms: c.timeout_ms,
+                    },
+                    _ => VerifSent::Other,
+                };
+                self.log.lock().unwrap().push(rec);
+            }
+            NodeSessionMessage::GetReadyState(reply) => {
+                let _ = reply.send(true);
+            }
+            _ => {}
+        }
+        Ok(())
+    }
+}
+
+/// The real proxy handler plus a real proxy state, driven message by message.
+#[allow(missing_debug_implementations)]
+pub struct VerifProxy {
+    myself: ActorRef<RemoteActorMessage>,
+    session: ActorRef<NodeSessionMessage>,
+    state: RemoteActorState,
+    log: Arc<Mutex<Vec<VerifSent>>>,
+}
+
+impl VerifProxy {
+    /// A proxy standing for `pid` on node `node_id`, owned by a recording session.
+    pub async fn new(pid: u64, node_id: u64) -> Self {
+        let log = Arc::new(Mutex::new(Vec::new()));
+        let (session, _) = Actor::spawn(None, RecordingSession { log: log.clone() }, ())
+            .await
+            .expect("recording session starts");
+        let (myself, _) = RemoteActor
+            .spawn_linked(session.clone(), None, pid, node_id, session.get_cell())
+            .await
+            .expect("remote actor starts");
+        let state = RemoteActorState::new(session.clone());
+        Self {
+            myself,
+            session,
+            state,
+            log,
+        }
+    }
+
+    /// Run the real `handle_serialized` on one message.
+    pub async fn handle(&mut self, message: SerializedMessage) -> Result<(), ActorProcessingErr> {
+        RemoteActor
+            .handle_serialized(self.myself.clone(), message, &mut self.state)
+            .await
+    }
+
+    /// What reached the session since the last call (mailbox barrier first).
+    pub async fn take_sent(&mut self) -> Vec<VerifSent> {
+        let _ = ractor::call_t!(self.session, NodeSessionMessage::GetReadyState, 10_000);
+        std::mem::take(&mut *self.log.lock().unwrap())
+    }
+
+    /// `message_tag`
+    pub fn tag(&self) -> u64 {
+        self.state.message_tag
+    }
+
+    /// Tags of `pending_requests`, ascending.
+    pub fn pending(&self) -> Vec<u64> {
+        self.state.pending_requests.keys().copied().collect()
+    }
+
+    /// `pending_request_cleanup_cursor`
+    pub fn cursor(&self) -> Option<u64> {
+        self.state.pending_request_cleanup_cursor
+    }
+
+    /// Stop the owning session (casts to it fail afterwards).
+    pub async fn stop_session(&mut self) {
+        let _ = self.session.stop_and_wait(None, None).await;
+    }
+
+    /// Stop everything.
+    pub async fn shutdown(self) {
+        self.myself.stop(None);
+        let _ = self.session.stop_and_wait(None, None).await;
+    }
+}
